@@ -20,6 +20,7 @@ pub mod c02;
 pub mod c03;
 pub mod c04;
 pub mod c05;
+pub mod c06;
 pub mod c07;
 pub mod c08;
 pub mod c09;
@@ -42,6 +43,7 @@ pub fn all() -> Vec<Box<dyn Check>> {
         Box::new(c03::C03),
         Box::new(c04::C04),
         Box::new(c05::C05),
+        Box::new(c06::C06),
         Box::new(c07::C07),
         Box::new(c08::C08),
         Box::new(c09::C09),
